@@ -76,7 +76,7 @@ func runHistory(r *Run, g *Gen, hc histCfg) {
 	killed := false
 	idleDone := false
 	for op := 0; op < hc.maxOps; op++ {
-		if !r.AgentAlive() || len(r.Violations) > 0 {
+		if !r.AgentAlive() || r.Hard() > 0 {
 			// one run reports its first discrepancy only: later ones would be
 			// consequences of the diverged state, not findings of their own
 			return
@@ -138,6 +138,11 @@ func runHistory(r *Run, g *Gen, hc histCfg) {
 				hc.checkImage(fmt.Sprintf("after establishment of cp=%d %s", s.CPSEID, describeSession(s)), cause)
 			} else if res.Rx != nil && r.AgentAlive() {
 				r.Probe("valid-establishment-rejected")
+				if hc.up4 {
+					// (cells or ids ran out half-way: what the attempt had taken by then
+					// stays taken - the listed no-rollback finding)
+					r.TaintRun("up4-refused-establishment")
+				}
 			}
 		case 1: // modify
 			s := live[r.Ch.Choose(len(live), "sess")]
